@@ -147,7 +147,7 @@ def run_tlc(
             r.depth = int(m.group(1))
         m = _cov_re.match(line)
         if m:
-            r.coverage[m.group(1)] = (int(m.group(3)), int(m.group(4)))
+            r.coverage[m.group(1)] = (int(m.group(4)), int(m.group(3)))  # (taken, new distinct)
         m = re.match(r"^Error: (Invariant|Action property|Temporal properties|Assumption|Deadlock|Evaluating)(.*)", line)
         if m and r.violation is None:
             r.violation = line
@@ -250,7 +250,14 @@ class Ctx:
         if self.violations:
             rp = OUT / "replay" / self.pid
             rp.mkdir(parents=True, exist_ok=True)
-            blob = json.dumps(self.violations[:50], indent=1, default=_json_default, sort_keys=True)
+            per = {}
+            keep = []
+            for v in self.violations:
+                k = json.dumps(v["match"], sort_keys=True, default=_json_default)
+                per[k] = per.get(k, 0) + 1
+                if per[k] <= 4 and len(keep) < 200:
+                    keep.append(v)
+            blob = json.dumps(keep, indent=1, default=_json_default, sort_keys=True)
             replay = rp / (hashlib.sha1(blob.encode()).hexdigest()[:12] + ".json")
             replay.write_text(blob)
         cov = {
